@@ -61,12 +61,18 @@ def r07_2(rep, M, rid):
     t_owner = set().union(*[src_of(n, "transformation") for n in tnames]) if tnames else set()
     letter_loop = [s for s in ast.walk(fn) if isinstance(s, ast.Assign) and isinstance(s.targets[0], ast.Name)
                    and isinstance(s.value, ast.Call) and isinstance(s.value.func, ast.Attribute) and s.value.func.attr == "get"
-                   and isinstance(s.value.func.value, ast.Name) and src_of(s.value.func.value.id, "permutations")
-                   and "representation" in " ".join(src_of(s.value.func.value.id, "permutations"))]
-    p_owner = set().union(*[src_of(s.value.func.value.id, "permutations") for s in letter_loop]) if letter_loop else set()
+                   and isinstance(s.value.func.value, ast.Name) and src_of(s.value.func.value.id, "permutations")]
+    ident = {norm(s2.targets[0]) for s2 in ast.walk(fn) if isinstance(s2, ast.Assign) and isinstance(s2.value, ast.Dict)
+             and any(isinstance(k, ast.Constant) and k.value == "identity" for k in s2.value.keys)}
     best = [s for s in ast.walk(fn) if isinstance(s, ast.Assign) and norm(s.targets[0]) == "self._best_transform"
-            and not (isinstance(s.value, ast.Name) and s.value.id == "identity")]
+            and not (isinstance(s.value, ast.Name) and s.value.id in ident)]
     b_owner = {norm(s.value) for s in best}
+    # only the relabelling that produces the *returned* letters counts (candidates are relabelled too while they are ranked): it follows
+    # the recording of the chosen candidate
+    if best:
+        first_best = min(b.lineno for b in best)
+        letter_loop = [s for s in letter_loop if s.lineno > first_best]
+    p_owner = set().union(*[src_of(s.value.func.value.id, "permutations") for s in letter_loop]) if letter_loop else set()
     if t_owner and t_owner == p_owner == b_owner and len(t_owner) == 1:
         rep.ok(rid, f"applied matrix, applied letter permutation and recorded _best_transform are all `{sorted(t_owner)[0]}`")
     else:
@@ -74,7 +80,7 @@ def r07_2(rep, M, rid):
                       f"_best_transform = {sorted(b_owner)}: the returned letters do not belong to the returned positions", M.where(GS))
     # both results are returned together in the non-identity branch
     rets = [r for r in ast.walk(fn) if isinstance(r, ast.Return) and isinstance(r.value, ast.Tuple) and len(r.value.elts) == 2]
-    last = rets[-1] if rets else None
+    last = max(rets, key=lambda r: r.lineno) if rets else None
     if last is not None:
         at = fl.node_of(last)
         s0 = fl.slice(last.value.elts[0], at)
@@ -88,6 +94,19 @@ def r07_2(rep, M, rid):
         else:
             rep.violation(rid, "non-identity return", f"positions transformed: {pos_applied}; letters permuted: {perm_applied}: the permutation "
                           "is applied without the transformation or vice versa", M.where(GS, last))
+
+
+def _src_kind(M, fq, fn, names):
+    """what a per-atom array is: 'param:<name>' or the getter of the system parameter it was read with"""
+    if not names or len(names) != 1:
+        return None
+    nm = next(iter(names))
+    if nm in M.params(fq):
+        return "param:" + nm
+    vals = [s2.value for s2 in ast.walk(fn) if isinstance(s2, ast.Assign) and norm(s2.targets[0]) == nm]
+    if len(vals) == 1 and isinstance(vals[0], ast.Call) and isinstance(vals[0].func, ast.Attribute) and norm(vals[0].func.value) in M.params(fq):
+        return vals[0].func.attr
+    return None
 
 
 def r07_3(rep, M, rid):
@@ -146,7 +165,8 @@ def r07_3(rep, M, rid):
         rep.violation(rid, "_get_wyckoff_sets: set attributes index", f"letter/element/number of a set are read at `{sorted(idxs)[0]}`, which is not the position of "
                       f"the orbit's first atom (`{first_pos_var}` from np.unique(..., return_index=True)): orbit labels / running numbers are not positions in "
                       "the conventional cell, so the reported letter and element depend on atom order", M.where(fq, ctor[0]))
-    elif len(idxs) == 1 and srcs.get("wyckoff_letter") == {"wyckoff_letters"} and srcs.get("element") == {"elements"} and srcs.get("atomic_number") == {"numbers"}:
+    elif len(idxs) == 1 and _src_kind(M, fq, fn, srcs.get("wyckoff_letter")) == "param:wyckoff_letters" \
+            and _src_kind(M, fq, fn, srcs.get("element")) == "get_chemical_symbols" and _src_kind(M, fq, fn, srcs.get("atomic_number")) == "get_atomic_numbers":
         rep.ok(rid, f"letter, element and atomic number of a set are read at the position of the orbit's first atom `{sorted(idxs)[0]}`")
     else:
         rep.violation(rid, "_get_wyckoff_sets: set attributes", f"letter/element/number are read at {sorted(idxs)} from {srcs}", M.where(fq, ctor[0]))
